@@ -116,8 +116,9 @@ func init() {
 		ID:    "C01",
 		Level: "exploration",
 		Rule: "one case = one simulated ledger run in which 2-4 replicas that differ only in node-local conditions (map seed - one replica re-seeded before every block, host time zone, clock skew, mempool content, clean restarts, roll-back-and-re-apply histories) apply the same blocks; " +
-			"non-trivial = at least one block with transactions or flags was applied on >= 2 replicas with different map seeds and zones; distinct by history fingerprint. Some runs use networks of 300+ identities with the protocol's own epoch length.",
-		Real:         append(append([]string{}, realLedger...), "Blockchain.ResetTo (roll-back histories)", "node start-up sequence (restart histories)"),
+			"non-trivial = at least one block with transactions or flags was applied on >= 2 replicas with different map seeds and zones; distinct by history fingerprint. Some runs use networks of 300+ identities with the protocol's own epoch length. " +
+			"Two runs in five are the fork situation instead: the network splits, both sides build certified blocks, and a node of one side validates the other side's honest branch through the real fork resolver on top of the common ancestor while its own head is elsewhere (non-trivial = the resolver's block validation ran); every block must get the verdict and the result it got at its builders' head.",
+		Real:         append(append([]string{}, realLedger...), "Blockchain.ResetTo (roll-back histories)", "node start-up sequence (restart histories)", "consensus.ForkResolver.processBlocks / ApplyFork, Blockchain.ValidateSubChain (fork-context histories)"),
 		Stub:         stubLedger,
 		Assumptions:  []string{"divergence is observed as (a) rejection of an honest block by a peer that accepts everything else, (b) difference in committed roots, next-block parameters, stored identity diff or receipts between replicas at the same height", "2^-190-class float-order effects in prepareBlockRewardCtx are out of reach of sampling (DESIGN 3 C01 L)"},
 		QuickSecs:    75,
@@ -141,6 +142,10 @@ func c01Observables(n *simnode.Node, h uint64) string {
 }
 
 func runC01(r *vfw.Run) {
+	if r.ChooseOpt("c01.forkcontext", 5) >= 3 {
+		forkScenario(r, true)
+		return
+	}
 	o := scen.Opts{MinIdent: 1, MaxIdent: 24, Zones: true, Skew: true, CeremonySoon: true}
 	big := false
 	if r.Choose("cfg.bignet", 7) == 6 {
